@@ -287,7 +287,12 @@ def run_pgdb(qt, empi, case):
         ProjectedGradientDescentBacktracking as PGDB, ProjectedGradientDescentBacktrackingOption as PGDBO)
     loss, lo = make_loss(case["loss"])
     algo = PGDB()
-    ao = PGDBO(mu=case.get("mu"), gamma=case.get("gamma", 0.3),
+    var_start = None
+    if case.get("start_seed") is not None:
+        # explicit start point (a random physical object) instead of the estimator's default origin object
+        _, c_, kind_, m_out = get_setup(case["setup"], case["para"])
+        var_start = to_var(kind_, case["para"], rand_object(kind_, c_, m_out, case["start_seed"]))
+    ao = PGDBO(mu=case.get("mu"), gamma=case.get("gamma", 0.3), var_start=var_start,
                mode_stopping_criterion_gradient_descent=MODES[case["mode"]],
                num_history_stopping_criterion_gradient_descent=case["h"], eps=case.get("eps"),
                max_iteration_optimization=case["max_iter"])
@@ -468,6 +473,11 @@ def chk_pgdb(ctx, case):
     def stat(name, v):
         stats[name] = max(stats.get(name, 0.0), float(v))
 
+    if case.get("start_seed") is not None:
+        x0_want = to_var(kind, para, rand_object(kind, c, m, case["start_seed"]))
+        if not np.array_equal(xs[0], x0_want):
+            vctx.violation(sub, site, "start-point-ignored", "var_start was given but the first iterate differs from it by %.3g (%s)" % (float(np.abs(xs[0] - x0_want).max()), label), case)
+            return
     # ---- history shape, returned value
     if not (len(fx) == k + 1 and len(xs) == k + 1 and len(ys) == k and len(alphas) == k and len(errs) == k):
         vctx.violation(sub, site, "history-shape", "history lengths inconsistent with k=%d: %s" % (k, [len(fx), len(xs), len(ys), len(alphas), len(errs)]), case)
@@ -615,15 +625,17 @@ def chk_pgdb(ctx, case):
         gf = np.array(loss.gradient(xf), dtype=float)
         yf = np.array(algo.func_proj(xf - gf / mu), dtype=float) - xf
         f_fin = float(loss.value(xf))
-    # universal certificate (theorems C11_universal_gap_states / C11_universal_gap_ball with R2 = 1, proved for states):
-    # NO physical state at all has a loss below  f(x) - U,   U = -<g,y> + mu * 2|y|
-    if kind == "state" and Mscalar is not None:
-        U = -float(np.dot(gf, yf)) + mu * 2.0 * float(np.linalg.norm(yf)) * (1 + 1e-12)
+    # universal certificate (theorems C11_universal_gap_states / _povms / _gates = C11_universal_gap_ball with R2 = 1, d^2, d^2; the
+    # variable of the eq-parametrisation is a sub-vector of the full one, so the same norm bound holds):
+    # NO physical object at all has a loss below  f(x) - U,   U = -<g,y> + mu * 2 sqrt(R2) |y|
+    if Mscalar is not None:
+        rad = 1.0 if kind == "state" else float(c.dim)
+        U = -float(np.dot(gf, yf)) + mu * 2.0 * rad * float(np.linalg.norm(yf)) * (1 + 1e-12)
         if converged:
-            stat("universal_gap:state:" + ("sq" if issq else "re"), max(0.0, U) / (1 + abs(f_fin)))
+            stat("universal_gap:%s:%s" % (kind, "sq" if issq else "re"), max(0.0, U) / (1 + abs(f_fin)))
             if U > TOL["universal"] * (1 + abs(f_fin)):
                 vctx.violation(sub, "LossMinimizationEstimator.calc_estimate", "universal-gap-large",
-                               "the run stopped by its criterion (mode %s, eps %.3g, k=%d) but the certified bound on the loss any physical state can gain is %.3g (|y|=%.3g, <g,y>=%.3g) (%s)" % (MODES[mode], eps, k, U, float(np.linalg.norm(yf)), float(np.dot(gf, yf)), label), case)
+                               "the run stopped by its criterion (mode %s, eps %.3g, k=%d) but the certified bound on the loss any physical object can gain is %.3g (|y|=%.3g, <g,y>=%.3g) (%s)" % (MODES[mode], eps, k, U, float(np.linalg.norm(yf)), float(np.dot(gf, yf)), label), case)
                 return
     comps = [("truth", to_var(kind, para, truth_full))]
     for j in range(ctx.n(3, 8)):
@@ -693,6 +705,13 @@ def pgdb_cases(ctx):
                                 "truth_seed": ctx.rng.randrange(10 ** 6), "gamma": [0.3, 0.3, 0.1][(idx + rep) % 3],
                                 "mu": [None, None, None, 1.0][(idx + rep) % 4]}
                         cases.append(case)
+    # explicit start points (var_start option): the optimum must not depend on where the run starts
+    # (generic loss classes only: the fast classes leave loss.num_var = None, so is_loss_and_option_sufficient() rejects any var_start with
+    #  them and the estimator raises ValueError -- an observation outside this property's quantifier, see the report)
+    for j, (setup, lname, mode) in enumerate([("qst1", "se", 0), ("povmt1", "re", 0), ("qst1", "re", 3), ("povmt1", "se", 1)] * ctx.n(1, 3)):
+        cases.append({"setup": setup, "para": j % 2 == 1, "loss": lname, "mode": mode, "h": 1, "eps": None if mode in (0, 1) else 1e-7,
+                      "max_iter": 150 if ctx.quick else 400, "shots": [1000, 0, 100][j % 3], "seed": ctx.rng.randrange(10 ** 6),
+                      "truth_seed": ctx.rng.randrange(10 ** 6), "start_seed": ctx.rng.randrange(10 ** 6), "gamma": 0.3, "mu": None})
     # truths at the rim of the physical set (see extreme_object)
     for j, (setup, lname, mode, shots) in enumerate([("povmt1", "fse", 0, 0), ("povmt1", "fre", 1, 1000), ("qst1", "fre", 3, 0), ("qpt1", "fse", 2, 0)] * ctx.n(1, 4)):
         cases.append({"setup": setup, "para": j % 2 == 0, "loss": lname, "mode": mode, "h": 1 + j % 2, "eps": None if mode in (0, 1) else (1e-9 if mode == 2 else 1e-7),
@@ -788,6 +807,27 @@ def chk_cvx_est(ctx, case):
             ctx.violation(sub, who[0], "not-optimal:" + input_class(kind, False, m) if f_q < f_p else "not-optimal:" + cls,
                           "estimators disagree: loss at the %s estimate %.12g > loss at the %s estimate %.12g (%s)" % (who[1], max(f_q, f_p), who[2], min(f_q, f_p), label), case)
             return
+    if case.get("sequence"):
+        # ONE CVXPY estimator / loss / algorithm triple serves a SEQUENCE of data sets (calc_estimate_sequence): every element must be the
+        # estimate (and the loss value) of its own data set
+        from quara.interface.cvxpy.qtomography.standard.estimator import CvxpyLossMinimizationEstimator
+        from quara.interface.cvxpy.qtomography.standard.loss_function import CvxpyUniformSquaredError, CvxpyRelativeEntropy, CvxpyLossFunctionOption
+        from quara.interface.cvxpy.qtomography.standard.minimization_algorithm import CvxpyMinimizationAlgorithm, CvxpyMinimizationAlgorithmOption
+        seeds2 = (case["seed"] + 101, case["truth_seed"] + 7)
+        _, empi2 = make_data(qt, kind, c, m, True, case["shots"], seeds2[0], seeds2[1])
+        cv2 = run_cvx(setup, fam, case["shots"], seeds2[0], seeds2[1])
+        with quiet(), warnings.catch_warnings():
+            warnings.simplefilter("ignore")
+            crs = CvxpyLossMinimizationEstimator().calc_estimate_sequence(
+                qt, [copy_data(empi), copy_data(empi2), copy_data(empi)], CvxpyUniformSquaredError() if fam == "se" else CvxpyRelativeEntropy(),
+                CvxpyLossFunctionOption(), CvxpyMinimizationAlgorithm(), CvxpyMinimizationAlgorithmOption(name_solver="scs", eps_tol=1e-8),
+                is_computation_time_required=True)
+        vs = [np.array(v, dtype=float) for v in crs.estimated_var_sequence]; ls = [float(v) for v in crs.estimated_loss_sequence]
+        for di, (want_v, want_l) in enumerate([(xv, cv["loss"]), (cv2["var"], cv2["loss"]), (xv, cv["loss"])]):
+            if di >= len(vs) or np.abs(vs[di] - want_v).max() > 1e-6 * (1 + np.abs(want_v).max()) or abs(ls[di] - want_l) > 1e-8 * (1 + abs(want_l)):
+                ctx.violation(sub, "CvxpyLossMinimizationEstimator.calc_estimate_sequence", "sequence-element-differs-from-single-estimate:" + cls,
+                              "element %d of calc_estimate_sequence (3 data sets) differs from the single-call estimate of its own data set (%s)" % (di, label), case)
+                return
     # competitors must not beat the SCS estimate
     comps = [("truth", to_var(kind, True, truth_full)), ("pgdb", x_p)]
     for j in range(ctx.n(3, 8)):
@@ -813,7 +853,8 @@ def sub_cvx_est(ctx):
     for rep in range(ctx.n(1, 4)):
         for setup in setups:
             for fam in ("se", "re"):
-                for shots in (shots_list if not ctx.quick else [shots_list[(i + j * 3) % 6] for j in range(2)]):
+                nsh = 4 if getattr(ctx, "c11_cvx_tie_broken", False) else 2
+                for shots in (shots_list if not ctx.quick else [shots_list[(i + j * 3) % 6] for j in range(2)] + [shots_list[(i + 1 + j * 3) % 6] for j in range(nsh - 2)]):
                     i += 1
                     cases.append({"setup": setup, "loss": fam, "shots": shots, "seed": ctx.rng.randrange(10 ** 6),
                                   "truth_seed": ctx.rng.randrange(10 ** 6)})
@@ -825,6 +866,8 @@ def sub_cvx_est(ctx):
                 ("qst3", "se", 1000), ("qpt1", "se", 0), ("qpt1", "re", 0), ("qpt1", "re", 1000)] * 2
     for setup, fam, shots in ext:
         cases.append({"setup": setup, "loss": fam, "shots": shots, "seed": ctx.rng.randrange(10 ** 6), "truth_seed": -(1 + ctx.rng.randrange(10 ** 6))})
+    for setup, fam, shots in [("qst1", "re", 100), ("povmt1", "se", 1000)] * ctx.n(1, 3):
+        cases.append({"setup": setup, "loss": fam, "shots": shots, "seed": ctx.rng.randrange(10 ** 6), "truth_seed": ctx.rng.randrange(10 ** 6), "sequence": True})
     ctx.sample("cvx_est", cases[0])
     ctx.run_cases("cvx_est", chk_cvx_est, cases)
     st = ctx.__dict__.get("c11_stats_cvx", {})
@@ -941,6 +984,36 @@ def chk_reuse(ctx, case):
                 if f_ref - fz > TOL["opt"] * (1 + abs(f_ref)):
                     ctx.violation(sub, site, "not-optimal" + sig, "%s: competitor %s has loss %.12g < loss of the estimate %.12g (defining formula on the current tomography)" % (tag, name, fz, f_ref), case)
                     return
+        if st.get("sequence"):
+            # the same objects serve a SEQUENCE of data sets in one call (calc_estimate_sequence): every element must be the estimate of
+            # its own data set (fresh objects, single call)
+            datas = [empi]
+            for extra in range(2):
+                datas.append(make_data(qt, kind, c, m, para, [st["shots"], 10, 1000][extra + 1] if st["shots"] else [0, 100, 1000][extra + 1],
+                                       st["seed"] + 101 * (extra + 1), st["truth_seed"] + 7 * (extra + 1))[1])
+            est, loss, lo, algo, ao = shared
+            with quiet(), warnings.catch_warnings():
+                warnings.simplefilter("ignore")
+                rs_ = est.calc_estimate_sequence(qt, [copy_data(dd_) for dd_ in datas], loss, lo, algo, ao,
+                                                 is_computation_time_required=True, is_detailed_results_required=True)
+            seq = [np.array(v, dtype=float) for v in rs_.estimated_var_sequence]
+            if len(seq) != len(datas):
+                ctx.violation(sub, "LossMinimizationEstimator.calc_estimate_sequence", "sequence-length" + sig, "%s: %d estimates for %d data sets" % (tag, len(seq), len(datas)), case)
+            for di, (xd, dd_) in enumerate(zip(seq, datas)):
+                xfd = np.array(estimate(triple(), qt, dd_).estimated_var, dtype=float)
+                dxs = float(np.abs(xd - xfd).max()) if xd.shape == xfd.shape else float("inf")
+                stat("sequence_vs_single", dxs)
+                if dxs > 1e-7 * (1 + np.abs(xfd).max()):
+                    ctx.violation(sub, "LossMinimizationEstimator.calc_estimate_sequence", "sequence-element-differs-from-single-estimate" + sig,
+                                  "%s: element %d of calc_estimate_sequence differs from the estimate of its own data set (fresh objects) by %.3g" % (tag, di, dxs), case)
+                    break
+                fr, inb = ref_loss(m_, fam, ref_probs(qt, xd), [qq for _, qq in dd_])
+                fd_rep = float(rs_.detailed_results[di].fx[-1])
+                if not inb and abs(fd_rep - fr) > 1e-9 * (1 + abs(fr)):
+                    ctx.violation(sub, "LossMinimizationEstimator.calc_estimate_sequence", "reported-loss-not-defining-formula" + sig,
+                                  "%s: element %d reports loss %.12g, defining formula on its own data %.12g" % (tag, di, fd_rep, fr), case)
+                    break
+            ctx.count(sub, key=key + ("sequence",), nontrivial=True, label="%s-sequence" % lname)
         prev = case["steps"][si - 1] if si else None
         same = prev is not None and prev["setup"].split("/")[0] == setup.split("/")[0] and prev["para"] == para
         ctx.count(sub, key=key, nontrivial=(si > 0 and conv and not inband),
@@ -961,9 +1034,9 @@ def sub_reuse(ctx):
         for rep in range(ctx.n(1, 2)):
             para = (li + rep) % 2 == 0
             # 1-qubit QST with three tester orders (same class / variables / schedules), then the other parametrisation
-            cases.append({"loss": lname, "steps": [step("qst1", para), step("qst1/zxy", para), step("qst1/yzx", para), step("qst1", not para)]})
+            cases.append({"loss": lname, "steps": [step("qst1", para), step("qst1/zxy", para), dict(step("qst1/yzx", para), sequence=True), step("qst1", not para)]})
             if not ctx.quick:
-                cases.append({"loss": lname, "steps": [step("povmt1", para), step("povmt1/2013", para), step("povmt1/3102", not para), step("povmt1/3102", para)]})
+                cases.append({"loss": lname, "steps": [step("povmt1", para), dict(step("povmt1/2013", para), sequence=True), step("povmt1/3102", not para), step("povmt1/3102", para)]})
                 cases.append({"loss": lname, "max_iter": 300, "steps": [step("qpt1", para), step("qpt1/2013", para), step("qpt1/1302", para)]})
                 cases.append({"loss": lname, "max_iter": 300, "steps": [step("qst1/yxz", para), step("povmt1", para), step("qpt1", not para), step("qst1", para), step("qst3", para)]})
     ctx.sample("reuse", cases[0])
@@ -1222,7 +1295,9 @@ def regen_tie(ctx):
     r = subprocess.run([sys.executable, os.path.join(V, "gen", "c11_py2coq.py"), os.environ.get("VERIF_REPO", "/repo"), gen_v],
                        capture_output=True, text=True, timeout=120)
     if r.returncode != 0:
-        return False, {"theorem": thms[0], "error": "translator rejected the source (outside its subset): " + (r.stdout + r.stderr)[-600:]}
+        part = "cvx" if r.returncode == 4 else "pgdb"
+        first = next((t for t in thms if (t.startswith("gen_cvx") or t.startswith("gen_constraints") or t.startswith("gen_num")) == (part == "cvx")), thms[0])
+        return False, {"theorem": first, "part": part, "error": "translator rejected the source (outside its subset): " + (r.stdout + r.stderr)[-600:]}
     q = ["-Q", os.path.join(V, "coq", "theories"), "QV", "-Q", scratch, "QVGen"]
     r = subprocess.run(["timeout", "300", "coqc"] + q + [gen_v], capture_output=True, text=True)
     if r.returncode != 0:
@@ -1265,10 +1340,15 @@ def run(ctx):
     ok2, info2 = regen_tie(ctx)
     if not ok2:
         ok, info = False, info2
-        ctx.note("regenerated model of optimize / _is_doing_for_alpha / num_cvxpy_variable (coq/gen/C11_Equiv.v) not discharged: %s" % str(info2)[:500])
+        ctx.note("regenerated model (optimize / _is_doing_for_alpha / CVXPY glue and loss expressions; coq/gen/C11_Equiv.v) not discharged: %s" % str(info2)[:500])
         # the tie is broken: widen the differential sweep to find a concrete failing input (up to 30 instead of 9 steps of every run are
         # replayed, the whole quick grid instead of half of it)
-        ctx.c11_tie_broken = True
+        thm = str(info2.get("theorem") or "")
+        part = info2.get("part") or ("cvx" if (thm.startswith("gen_cvx") or thm.startswith("gen_constraints") or thm.startswith("gen_num")) else "pgdb")
+        if part == "pgdb":
+            ctx.c11_tie_broken = True          # backtracking loop: whole quick grid, 30 steps per run
+        else:
+            ctx.c11_cvx_tie_broken = True      # CVXPY glue / loss expressions: more SCS cases (4 instead of 2 shot counts per setup and loss)
     if not ok:
         ctx.discharged = min(ctx.discharged, ctx.obligations - 1)
     for name, fn in SUBS:
